@@ -15,15 +15,58 @@ import crashgen
 LIB = None  # all of libqb
 
 
-def run_cases(ctx, exe, cases, stream, batch=12, timeout=240):
+WORKERS = 4          # the machine is shared: never more than four harness processes at once
+
+
+def run_pool(ctx, exe, cases, batch, timeout):
+    """as vlib.run_batched, with a pool of WORKERS processes; a batch whose process fails or times out
+    is re-run case by case"""
+    import concurrent.futures as cf
+    res = {}
+
+    def run_group(group):
+        text = "".join("case %s\n%s\n" % (cid, "\n".join(ops)) for cid, ops in group)
+        lines, rc, err = ctx.run_exe(exe, text, timeout=timeout)
+        return group, lines, rc, err
+
+    groups = [cases[i:i + batch] for i in range(0, len(cases), batch)]
+    retry = []
+    with cf.ThreadPoolExecutor(WORKERS) as ex:
+        for group, lines, rc, err in ex.map(run_group, groups):
+            if rc == 0 or len(group) == 1:
+                sp = vlib.split_cases(lines)
+                for cid, _ in group:
+                    out = sp.get(str(cid), [])
+                    if rc != 0:
+                        out = out + [vlib.sanitizer_kind(err) or ("TIMEOUT" if rc == -999 else "CRASH:%d" % rc)]
+                    res[str(cid)] = (out, None)
+            else:
+                retry += [[c] for c in group]
+        for group, lines, rc, err in ex.map(run_group, retry):
+            cid = str(group[0][0])
+            out = vlib.split_cases(lines).get(cid, [])
+            if rc != 0:
+                out = out + [vlib.sanitizer_kind(err) or ("TIMEOUT" if rc == -999 else "CRASH:%d" % rc)]
+            res[cid] = (out, None)
+    return res
+
+
+def modelled(ops):
+    """the server-death direction is judged by the property oracle alone (the client state machine of
+    Model/IpcLifeClient.lean is tied to the code by the theorems' hypotheses, not by this differential)"""
+    return bool(ops) and not ops[0].startswith(("sdry", "sdeath"))
+
+
+def run_cases(ctx, exe, cases, stream, batch=12, timeout=60):
     """differential + oracle for single-op cases; a failing / differing case is re-run alone twice and
     only counts when it persists (the harness synchronises processes with real time-outs, a loaded
     machine can make one run time out).  Returns {cid: impl_lines}."""
     if not cases:
         return {}
-    impl = vlib.run_batched(ctx, exe, cases, batch=batch, timeout=timeout)
+    impl = run_pool(ctx, exe, cases, batch, timeout)
     mexe = ctx.models.get("ipclife")
-    model = vlib.run_batched(ctx, mexe, cases, batch=200, timeout=timeout) if mexe else {}
+    mcases = [c for c in cases if modelled(c[1])]
+    model = vlib.run_batched(ctx, mexe, mcases, batch=400, timeout=120) if (mexe and mcases) else {}
     out = {}
     ofail, diffs = [], []
 
@@ -41,12 +84,12 @@ def run_cases(ctx, exe, cases, stream, batch=12, timeout=240):
     for cid, ops in cases:
         cid = str(cid)
         il = clean(impl[cid][0])
-        ml = clean(model[cid][0]) if model else None
+        ml = clean(model[cid][0]) if cid in model else None
         v = judge(ops, il, ml)
         tries = 0
         while v and tries < 2:
             tries += 1
-            r = vlib.run_batched(ctx, exe, [("r", ops)], batch=1, timeout=timeout)
+            r = run_pool(ctx, exe, [("r", ops)], 1, timeout)
             il2 = clean(r["r"][0])
             v2 = judge(ops, il2, ml)
             if not v2:
@@ -168,17 +211,24 @@ def run(ctx):
             run_cases(ctx, exe, cases, "replay", batch=1)
             return
         corpus = vlib.corpus_cases("C03")
-        run_cases(ctx, exe, corpus, "corpus", batch=4)
+        run_cases(ctx, exe, corpus, "corpus", batch=1)
+        if ctx.violations:
+            return
         dry = crashgen.dry_ops()
-        dry_out = run_cases(ctx, exe, dry, "dry-call-lists", batch=4)
+        dry_out = run_cases(ctx, exe, dry, "dry-call-lists", batch=6)
         if ctx.violations:
             return
         cd, gd, hs, sd = enumerate_cases(ctx, dry_out)
-        run_cases(ctx, exe, sd, "server-death")
+        run_cases(ctx, exe, sd, "server-death", batch=8)
         if ctx.violations:
             return
         run_cases(ctx, exe, hs, "handshake-prefix")
         run_cases(ctx, exe, gd, "client-killed-at-server-call")
+        if ctx.quick():
+            # quick tier: every crash point under schedule S; under R and L a seed-chosen half
+            n_all = len(cd)
+            cd = [c for c in cd if " S " in c[1][0] or ctx.rng.random() < 0.5]
+            ctx.cov["client_death_cases_quick"] = "%d of %d (all of schedule S, half of R and L by seed)" % (len(cd), n_all)
         run_cases(ctx, exe, cd, "client-death")
         if not ctx.quick() and not ctx.violations and not ctx.broken:
             # stability of the schedule control: the whole enumeration again, in another order
